@@ -44,11 +44,15 @@ IsWordC(c) == c \in 48..57 \/ c \in 65..90 \/ c \in 97..122 \/ c = 95 \/ c \in {
 ClsOk(n, c) == CASE n = "d" -> IsDigitC(c) [] n = "D" -> ~IsDigitC(c)
                  [] n = "s" -> IsSpaceC(c) [] n = "S" -> ~IsSpaceC(c)
                  [] n = "w" -> IsWordC(c)  [] n = "W" -> ~IsWordC(c)
+(* A case-insensitive REGEX folds case the Unicode way (simple case folding: k ~ K ~ KELVIN SIGN,  *)
+(* s ~ S ~ LONG S, e-acute ~ E-acute); plain patterns fold ASCII only (Low).  Decided here for     *)
+(* ASCII and the non-ASCII letters the generators use.                                            *)
+RxFold(c) == IF c = 383 THEN 115 ELSE IF c = 8490 THEN 107 ELSE IF c = 201 THEN 233 ELSE LowC(c)
 AtomOk(a, c, ic) ==
-  IF a.t = "c" THEN (IF ic THEN LowC(a.c) = LowC(c) ELSE a.c = c)
+  IF a.t = "c" THEN (IF ic THEN RxFold(a.c) = RxFold(c) ELSE a.c = c)
   ELSE IF a.t = "dot" THEN c # 10
   ELSE IF a.t = "cls" THEN ClsOk(a.n, c)
-  ELSE a.t = "set" /\ ((\E m \in DOMAIN a.cs : IF ic THEN LowC(a.cs[m]) = LowC(c) ELSE a.cs[m] = c) # a.neg)
+  ELSE a.t = "set" /\ ((\E m \in DOMAIN a.cs : IF ic THEN RxFold(a.cs[m]) = RxFold(c) ELSE a.cs[m] = c) # a.neg)
 RepOf(a) == IF "rep" \in DOMAIN a THEN a.rep ELSE "1"
 
 RECURSIVE ReMatchAt(_, _, _, _)
